@@ -97,6 +97,9 @@ MUTANTS = [
      "            if (event.time != self.simulator_time):\n                self.fire_timed(event.time, Simulator.TIME_CHANGED_EVENT,\n                                event.time)\n", "", 8000),
     ("c04-start-after-end-allowed", "C04", "simulator.py",
      "        if not (self._replication_state == ReplicationState.INITIALIZED \\\n                or self.replication_state == ReplicationState.STARTED):\n            raise DSOLError(\"replication state not INITIALIZED or STARTED\")\n", "", 8000),
+    ("c04-step-epilogue-unconditional", "C04", "simulator.py",
+     "            if (self.is_starting_or_running()\n                    or self._run_state == RunState.STOPPING):\n                self._run_state = RunState.STOPPED\n",
+     "            self._run_state = RunState.STOPPED\n", 14000),
     ("c04-step-notify-before-state", "C04", "simulator.py",
      "            self._run_state = RunState.STARTED\n            if self._replication_state == ReplicationState.INITIALIZED:\n                self._replication_state = ReplicationState.STARTED\n                self.fire_timed(self._simulator_time,\n                    ReplicationInterface.START_REPLICATION_EVENT, None)",
      "            if self._replication_state == ReplicationState.INITIALIZED:\n                self.fire_timed(self._simulator_time,\n                    ReplicationInterface.START_REPLICATION_EVENT, None)\n                self._replication_state = ReplicationState.STARTED\n            self._run_state = RunState.STARTED", 36000),
